@@ -49,7 +49,8 @@ struct Tally
 inline void mx (double& a, LD v) { if ((double) v > a) a = (double) v; }
 
 // relations that take one (nearly) unit quaternion
-template <class T> void single (Tally& tl, const Quat<T>& q, const std::string& in, bool with_vectors)
+// `explog_sfx` narrows the sites of the log/exp relations to the input class of the calling family
+template <class T> void single (Tally& tl, const Quat<T>& q, const std::string& in, bool with_vectors, const char* explog_sfx = "")
 {
     const LD e  = EPS<T> ();
     const Q  qr = toQ (q);
@@ -154,8 +155,9 @@ template <class T> void single (Tally& tl, const Quat<T>& q, const std::string& 
         tl.trans += 2;
         LD d = qmaxdiff (toQ (back), qr), t = 8 * e * (1 + cond);
         mx (tl.w_explog, 8 * d / t);
-        if (!(lg.r == 0)) R ().fail (site<T> ("Quat", "log.is-pure"), in, "real part 0", qs (lg));
-        if (!(d <= t)) R ().fail (site<T> ("Quat", "exp(log(q))=q"), in, qs (q) + " to 8 eps (1+cond), cond=" + vf::fmt (cond), qs (back));
+        if (!qfinite (toQ (back)) || !(d == d)) d = 1e30L;
+        if (!(lg.r == 0)) R ().fail (site<T> ("Quat", std::string ("log.is-pure") + explog_sfx), in, "real part 0", qs (lg));
+        if (!(d <= t)) R ().fail (site<T> ("Quat", std::string ("exp(log(q))=q") + explog_sfx), in, qs (q) + " to 8 eps (1+cond), cond=" + vf::fmt (cond), qs (back));
     }
     // setAxisAngle(axis(), angle()) = +-q
     {
@@ -322,6 +324,89 @@ template <class T> void near_axis_quats (Tally& tl, long long cnt[3])
                     }
 }
 
+
+// ---- stage "unit-within-rounding" (seed C10-u2) ---------------------------------------------------------------------------
+// Quaternions that are unit only to rounding can have a real part one ulp ABOVE 1 (|q|^2 = 1 + 2 eps): Quat(1+eps,0,0,0),
+// products inverse(q)*q, normalised near-identity quaternions. The property quantifies over "all unit quaternions (including
+// w ... near +-1)", and a T-valued quaternion is unit exactly in this sense, so the whole class is in the domain:
+//   family A: r in {+-(1 - eps/2), +-1, +-(1 + eps)} (1 - ulp, 1, 1 + ulp), v = s * d, d in {-1,0,1}^3 (the zero vector
+//             included), s in {denorm_min, min, eps, 2^k around sqrt(eps)}, every combination whose norm defect
+//             | r^2 + |v|^2 - 1 | is at most 4.5 eps -- the same defect bound the other families of this file have after
+//             Quat::normalized(), so every relation of single() applies with its stated a-priori tolerance
+//             (exp(log q) = q to 8 eps (1 + cond) is skipped for r < 0, i.e. near -1, as the statement says);
+//   family B: p = inverse(q) * q, q * inverse(q), q * ~q for the 624 normalised lattice quaternions: "q*inverse(q) is the
+//             identity" (8 eps per component, checked in single()) makes p a unit quaternion within rounding whose real part
+//             is 1 - k ulp, 1 or 1 + ulp. exp(log p) is (cos, sin)-valued, hence unit to 2 eps, and must be p up to p's own
+//             distance from the unit sphere (<= 8 eps, the bound of q*inverse(q)=1) plus the rounding of log/exp near the
+//             identity (theta/sin theta and sin theta/theta are 1 + O(eps) there: <= 4 eps): bound 12 eps, log p pure and finite.
+struct RoundCnt
+{
+    long long r_above1 = 0, r_eq1 = 0, r_below1 = 0, r_neg = 0, v_zero = 0, v_tiny = 0, v_sqrt_eps = 0, skipped_defect = 0;
+    long long p_above1 = 0, p_eq1 = 0, p_below1 = 0;
+};
+
+template <class T> void check_explog_near_identity (Tally& tl, const Quat<T>& p, const std::string& in, const char* sfx)
+{
+    const LD e = EPS<T> ();
+    Quat<T>  lg = p.log (), back = lg.exp ();
+    tl.trans += 2;
+    if (!qfinite (toQ (lg)) || !(lg.r == 0)) R ().fail (site<T> ("Quat", std::string ("log.is-pure-and-finite") + sfx), in, "(0, finite vector)", qs (lg));
+    LD d = qmaxdiff (toQ (back), toQ (p));
+    if (!qfinite (toQ (back)) || !(d == d)) d = 1e30L;
+    mx (tl.w_explog, 8 * d / (12 * e));
+    if (!(d <= 12 * e)) R ().fail (site<T> ("Quat", std::string ("exp(log(q))=q") + sfx), in, qs (p) + " to 12 eps", qs (back));
+}
+
+template <class T> void rounding_family (Tally& tl, RoundCnt& rc)
+{
+    const LD   e   = EPS<T> ();
+    const bool dbl = std::numeric_limits<T>::digits > 30;
+    const T    one = 1, eps = std::numeric_limits<T>::epsilon ();
+    const T    RS[6] = {(T) (one - eps / 2), one, (T) (one + eps), (T) - (one - eps / 2), (T) -one, (T) - (one + eps)};
+    const char* RN[6] = {"1-ulp", "1", "1+ulp", "-(1-ulp)", "-1", "-(1+ulp)"};
+    struct S { T s; std::string name; int cls; };
+    std::vector<S> ss;
+    ss.push_back ({std::numeric_limits<T>::denorm_min (), "denorm_min", 1});
+    ss.push_back ({std::numeric_limits<T>::min (), "min", 1});
+    ss.push_back ({eps, "eps", 1});
+    for (int k : {dbl ? -28 : -14, dbl ? -27 : -13, dbl ? -26 : -12, dbl ? -25 : -11}) ss.push_back ({(T) ldexpl (1.0L, k), "2^" + std::to_string (k), 2});
+    for (int ri = 0; ri < 6; ++ri)
+        for (int di = 0; di < 27; ++di)
+        {
+            int d[3];
+            ex::decode ((uint64_t) di, 3, 3, d, -1);
+            const bool dz = !(d[0] || d[1] || d[2]);
+            for (size_t si = 0; si < (dz ? 1 : ss.size ()); ++si)
+            {
+                const T s = dz ? (T) 0 : ss[si].s;
+                Quat<T> q (RS[ri], (T) (s * d[0]), (T) (s * d[1]), (T) (s * d[2])); // s * {-1,0,1}: exact
+                Q       qr = toQ (q);
+                LD      defect = fabsl (qdot (qr, qr) - 1);
+                if (defect > 4.5L * e) { ++rc.skipped_defect; continue; }
+                (ri >= 3 ? rc.r_neg : ri == 0 ? rc.r_below1 : ri == 1 ? rc.r_eq1 : rc.r_above1)++;
+                (dz ? rc.v_zero : ss[si].cls == 1 ? rc.v_tiny : rc.v_sqrt_eps)++;
+                const std::string in = "unit-within-rounding q=(r=" + std::string (RN[ri]) + ", v=" + (dz ? std::string ("0") : ss[si].name + "*" + i3 (d)) + ")=" + qs (q);
+                single<T> (tl, q, in, false, ".unit-within-rounding");
+            }
+        }
+    // family B
+    for (auto& g : lattice4 (2))
+    {
+        Quat<T> q = Quat<T> ((T) g.c[0], (T) g.c[1], (T) g.c[2], (T) g.c[3]).normalized ();
+        Quat<T> ps[3] = {q.inverse () * q, q * q.inverse (), q * ~q};
+        static const char* pn[3] = {"inverse(q)*q", "q*inverse(q)", "q*~q"};
+        for (int k = 0; k < 3; ++k)
+        {
+            ++tl.states;
+            const Quat<T>& p = ps[k];
+            LD d1 = qmaxdiff (toQ (p), Q{1, 0, 0, 0});
+            if (!(d1 <= 8 * e)) continue; // not a unit quaternion within rounding: reported by Quat::q*inverse=1 in stage unit-lattice
+            (p.r > 1 ? rc.p_above1 : p.r == 1 ? rc.p_eq1 : rc.p_below1)++;
+            check_explog_near_identity<T> (tl, p, std::string ("p=") + pn[k] + "=" + qs (p) + " q=normalized" + i4 (g.c), ".of-product-q*inverse(q)");
+        }
+    }
+}
+
 } // namespace
 
 void run_unit ()
@@ -358,6 +443,31 @@ void run_unit ()
     R ().sample ("q=normalized(1,-2,0,2): exp(log q) == q to 8 eps(1+cond); setAxisAngle(axis(),angle()) == q");
     R ().stage_done (std::string ("624 normalised integer quaternions x {normalize, inverse, matrices, extractQuat, exp/log, axis/angle, 125 vectors x 4 rotation entry points}; products ") +
                      (th ? "all 624^2" : "every 5th of 624^2") + "; 29 + 9 scaled (2^k) axes x 124 angles axis-angle pairs (+ 6 scaled vectors each); near-axis family 7 real parts x 3 dominant axes x 2 signs x {0,+-10^-j}^2; float and double");
+}
+
+void run_rounding ()
+{
+    if (!R ().stage ("unit-within-rounding")) return;
+    Tally    tl;
+    RoundCnt rc;
+    rounding_family<float> (tl, rc);
+    rounding_family<double> (tl, rc);
+    R ().add ("states", tl.states); R ().add ("transitions", tl.trans); R ().add ("evaluations", tl.states);
+    R ().add ("rounding_family_combinations_with_norm_defect_above_4.5eps_not_unit", rc.skipped_defect);
+    R ().cls ("unit-within-rounding.r=1+ulp", rc.r_above1);
+    R ().cls ("unit-within-rounding.r=1", rc.r_eq1);
+    R ().cls ("unit-within-rounding.r=1-ulp", rc.r_below1);
+    R ().cls ("unit-within-rounding.r<0(explog-skipped)", rc.r_neg);
+    R ().cls ("unit-within-rounding.v=0", rc.v_zero);
+    R ().cls ("unit-within-rounding.v-tiny(denorm,min,eps)", rc.v_tiny);
+    R ().cls ("unit-within-rounding.v~sqrt-eps", rc.v_sqrt_eps);
+    R ().cls ("product-q*inverse(q).r>1", rc.p_above1);
+    R ().cls ("product-q*inverse(q).r=1", rc.p_eq1);
+    R ().cls ("product-q*inverse(q).r<1", rc.p_below1);
+    R ().note_max ("unit-within-rounding exp(log q): worst error in eps(1+cond) resp. 12 eps, scaled to bound 8", tl.w_explog);
+    R ().sample ("q=(1+eps,0,0,0): log q == (0,0,0,0), exp(log q) == (1,0,0,0), within eps of q");
+    R ().stage_done ("r in {+-(1-ulp), +-1, +-(1+ulp)} x v = s*d, d in {-1,0,1}^3, s in {denorm_min, min, eps, four powers of two around sqrt(eps)} with norm defect <= 4.5 eps x all single-quaternion relations; "
+                     "exp(log p) = p for p = inverse(q)*q, q*inverse(q), q*~q over 624 normalised lattice quaternions; float and double");
 }
 
 } // namespace c10
